@@ -70,11 +70,12 @@ def asset(value):
 
 
 def slash_fixed_str(s):
-    s = s.strip()
+    # replace any number of leading slashes with a single slash, and strip any
+    # trailing slashes; nothing but slashes is the root, i.e. no prefix
+    s = s.strip().lstrip("/").rstrip("/")
     if s:
-        # always have a leading slash, replace any number of leading slashes
-        # with a single slash, and strip any trailing slashes
-        s = "/" + s.lstrip("/").rstrip("/")
+        # always have a leading slash
+        s = "/" + s
     return s
 
 
